@@ -112,7 +112,7 @@ var svcs = []svcDef{
 		Abort: func(t string) [][]byte {
 			return [][]byte{[]byte("HELO " + t + ".test\r\n"), []byte("MAIL FROM:<" + t + "@a.test>\r\n"), []byte("DATA\r\n"), []byte("Subject: half " + t + "\r\n\r\nunfinished")}
 		}},
-	{Name: "ldap", Type: "ldap", Net: "tcp", Port: 389, Extra: "credentials=[\"root:root\"]\n",
+	{Name: "ldap", Type: "ldap", Net: "tcp", Port: 389, Extra: "credentials=[\"root:root\"]\nnaming-contexts=[\"dc=example,dc=com\",\"dc=ad,dc=myserver,dc=com\"]\n",
 		Sess: []sess{
 			{"bind-add", func(t string) [][]byte {
 				return [][]byte{gen.LDAPBind(1, "root", "root"), gen.LDAPSearch(2, "dc="+t, gen.LDAPFilterEq("uid", t), "cn"), ldapAdd(3, t)}
